@@ -15,7 +15,7 @@ KNOWN_FILE = os.path.join(VERIF, "KNOWN_FINDINGS.txt")
 
 ASSUMPTIONS_COMMON = [
     "A1: the interpreter runs with assertions enabled (no -O); the library validates input with assert",
-    "A2: Python semantics of the modelled constructs and the rewrite table of sa/terms.py (accepted idioms)",
+    "A2: Python 3 semantics (the package declares Python 3 only) of the modelled constructs - e.g. != is derived from __eq__ when a class defines no __ne__ - and the rewrite table of sa/terms.py (accepted idioms)",
     "A3: no run-time monkeypatching; analysability preconditions (no exec/eval/metaclass/__getattr__/star import) re-checked on this run",
     "A4: SHA-256 and HKDF implementations conform to their RFCs",
     "A5: an entropy function called with n returns a bytes object of exactly n bytes (the contract of os.urandom, which the library documents for entropy_f)",
